@@ -829,72 +829,7 @@ Proof.
 Qed.
 
 (* ------------------------------------------------------------------------- *)
-(* 13. allocation driven by length prefixes (C20, binary loader)              *)
-
-(* version string "1.8", then a name announced with n bytes and nothing after it: 19 bytes *)
-Definition hostile_stream (n : N) : list byte := enc_str codec_version ++ enc_u64 n.
-
-Lemma hostile_length : forall n, List.length (hostile_stream n) = 19%nat.
-Proof. intros. unfold hostile_stream. rewrite app_length, enc_u64_length. reflexivity. Qed.
-
-Lemma alloc_str_u64 : forall n rest, n < two64 -> alloc_str (enc_u64 n ++ rest) = 8 + n.
-Proof. intros. unfold alloc_str. rewrite RT_u64 by (apply N.ltb_lt; assumption). reflexivity. Qed.
-
-Lemma alloc_str_enc : forall s rest, str_ok s = true -> alloc_str (enc_str s ++ rest) = 8 + N.of_nat (String.length s).
-Proof.
-  intros. unfold enc_str. rewrite <- app_assoc, length_list_ascii. apply alloc_str_u64.
-  apply N.ltb_lt. exact H.
-Qed.
-
-Lemma hostile_alloc : forall n, 0 < n -> n < two64 -> alloc_decode (hostile_stream n) = 19 + n.
-Proof.
-  intros n H0 H. unfold alloc_decode, hostile_stream.
-  rewrite alloc_str_enc by reflexivity.
-  rewrite RT_str by reflexivity. cbn [afterv].
-  rewrite String.eqb_refl. cbn [negb].
-  rewrite <- (app_nil_r (enc_u64 n)). rewrite alloc_str_u64 by exact H.
-  unfold after at 1. unfold read_str. rewrite RT_u64 by (apply N.ltb_lt; exact H). cbn [rbind].
-  unfold read_raw. rewrite take_N_short by (cbn [List.length]; lia). cbn [rbind].
-  change (N.of_nat (String.length codec_version)) with 3. lia.
-Qed.
-
-Lemma hostile_is_error : forall n, 0 < n -> n < two64 -> decode (hostile_stream n) = Err.
-Proof.
-  intros n H0 H. unfold decode, decode_rest, hostile_stream.
-  rewrite RT_str by reflexivity. cbn [rbind]. rewrite String.eqb_refl. cbn [negb].
-  unfold read_str. rewrite <- (app_nil_r (enc_u64 n)). rewrite RT_u64 by (apply N.ltb_lt; exact H). cbn [rbind].
-  unfold read_raw. rewrite take_N_short by (cbn [List.length]; lia). reflexivity.
-Qed.
-
-(* the statement C20 makes about the binary loader, for the modelled allocation:
-   requested bytes bounded by a linear function of the input length *)
-Definition C20_binary_statement : Prop :=
-  exists K K' : N, forall bs, alloc_decode bs <= K * N.of_nat (List.length bs) + K'.
-
-(* refuted: whatever the bound, a 19-byte stream asks for more (as long as the bound is below 2^63) *)
-Theorem C20_binary_no_linear_bound : forall K K', K * 19 + K' < two63 ->
-  exists bs, List.length bs = 19%nat /\ decode bs = Err /\ alloc_decode bs > K * N.of_nat (List.length bs) + K'.
-Proof.
-  intros K K' H. exists (hostile_stream (K * 19 + K' + 1)).
-  assert (Hlt : K * 19 + K' + 1 < two64) by (unfold two63, two64 in *; lia).
-  rewrite hostile_length. split; [reflexivity|]. split.
-  - apply hostile_is_error; [lia | exact Hlt].
-  - rewrite hostile_alloc by (try exact Hlt; lia). change (N.of_nat 19) with 19. lia.
-Qed.
-
-Definition C20_binary_refuted_statement : Prop :=
-  forall K K', K * 19 + K' < two63 ->
-    exists bs, List.length bs = 19%nat /\ decode bs = Err /\ alloc_decode bs > K * N.of_nat (List.length bs) + K'.
-Theorem C20_binary_refuted_proved : C20_binary_refuted_statement.
-Proof. exact C20_binary_no_linear_bound. Qed.
-
-(* the concrete witness of the known finding: length prefix 2^40 *)
-Example hostile_2_40 : alloc_decode (hostile_stream 1099511627776) = 1099511627795 /\
-                       List.length (hostile_stream 1099511627776) = 19%nat.
-Proof. split. apply hostile_alloc; reflexivity. apply hostile_length. Qed.
-
-(* ------------------------------------------------------------------------- *)
-(* 14. a stream that decodes requested at most three times its length         *)
+(* 13. allocation driven by the stream is linear in the stream (C20, binary)  *)
 
 Definition L (bs : list byte) : N := N.of_nat (List.length bs).
 
@@ -902,6 +837,8 @@ Definition L (bs : list byte) : N := N.of_nat (List.length bs).
    for (three-fold) by the bytes it consumed *)
 Definition Lin {A} (rd : reader A) (al : list byte -> N) : Prop :=
   forall bs x r, rd bs = Ok (x, r) -> L r <= L bs /\ al bs + 3 * L r <= 3 * L bs.
+(* ... and whatever happens, the request is bounded by the stream that is left *)
+Definition Tot (al : list byte -> N) : Prop := forall bs, al bs <= 3 * L bs + 8.
 
 Lemma read_raw_len : forall n bs h r, read_raw n bs = Ok (h, r) -> L bs = n + L r /\ L h = n.
 Proof.
@@ -915,16 +852,48 @@ Proof.
   apply read_raw_len in E. lia.
 Qed.
 
-Lemma read_str_exact : forall bs s r, read_str bs = Ok (s, r) -> alloc_str bs + L r = L bs /\ 8 + L r <= L bs.
+Lemma read_str_exact : forall bs s r, read_str bs = Ok (s, r) -> alloc_str bs + L r <= L bs /\ 8 + L r <= L bs.
 Proof.
   intros bs s r H. unfold read_str in H. unfold alloc_str.
   destruct (read_u64 bs) as [[n r1]| |] eqn:E1; try discriminate. cbn [rbind] in H.
   destruct (read_raw n r1) as [[h r2]| |] eqn:E2; inversion H; subst.
-  apply read_u64_len in E1. apply read_raw_len in E2. lia.
+  apply read_u64_len in E1. apply read_raw_len in E2. fold (L r1).
+  destruct (two63 <=? n); lia.
 Qed.
 
 Lemma Lin_str : Lin read_str alloc_str.
 Proof. intros bs s r H. apply read_str_exact in H. lia. Qed.
+
+Lemma Tot_str : Tot alloc_str.
+Proof.
+  intros bs. unfold alloc_str. destruct (read_u64 bs) as [[n r]| |] eqn:E; try lia.
+  apply read_u64_len in E. fold (L r). destruct (two63 <=? n); lia.
+Qed.
+
+(* one element of a []string: the 16 bytes of the append are covered because the element consumed at least 8 *)
+Lemma Lin_str_elem : Lin read_str alloc_str_elem.
+Proof.
+  intros bs s r H. unfold alloc_str_elem. rewrite H. cbn [after]. unfold string_header_size.
+  apply read_str_exact in H. lia.
+Qed.
+
+Lemma Tot_str_elem : Tot alloc_str_elem.
+Proof.
+  intros bs. destruct (read_str bs) as [[s r]| |] eqn:E.
+  - pose proof (Lin_str_elem _ _ _ E). lia.
+  - unfold alloc_str_elem. rewrite E. cbn [after]. pose proof (Tot_str bs). lia.
+  - unfold alloc_str_elem. rewrite E. cbn [after]. pose proof (Tot_str bs). lia.
+Qed.
+
+(* sequencing *)
+Lemma Tot_after : forall A (rd : reader A) al k, Lin rd al -> Tot al -> Tot k ->
+  Tot (fun bs => al bs + after (rd bs) k).
+Proof.
+  intros A rd al k Hl Ha Hk bs. cbv beta. destruct (rd bs) as [[x r]| |] eqn:E; cbn [after].
+  - apply Hl in E. pose proof (Hk r). lia.
+  - pose proof (Ha bs). lia.
+  - pose proof (Ha bs). lia.
+Qed.
 
 Lemma Lin_seq_fuel : forall A (rd : reader A) al, Lin rd al ->
   forall fuel count, Lin (read_seq_fuel rd fuel count) (alloc_seq_fuel rd al fuel count).
@@ -938,32 +907,31 @@ Proof.
     apply Hl in E1. apply IHfuel in E2. lia.
 Qed.
 
-(* []string: 16 bytes of slice per element are covered because every element consumes at least 8 *)
-Lemma strs_seq_lin : forall fuel count bs xs r, read_seq_fuel read_str fuel count bs = Ok (xs, r) ->
-  L r <= L bs /\ alloc_seq_fuel read_str alloc_str fuel count bs + 16 * count + 3 * L r <= 3 * L bs.
+Lemma Tot_seq_fuel : forall A (rd : reader A) al, Lin rd al -> Tot al ->
+  forall fuel count, Tot (alloc_seq_fuel rd al fuel count).
 Proof.
-  induction fuel; intros count bs xs r H.
-  - destruct count; cbn in H; inversion H; subst. cbn. lia.
-  - destruct count as [|p]; [cbn in H; inversion H; subst; cbn; lia|].
-    cbn [read_seq_fuel alloc_seq_fuel] in *.
-    destruct (read_str bs) as [[x r1]| |] eqn:E1; try discriminate. cbn [rbind after] in *.
-    destruct (read_seq_fuel read_str fuel (N.pred (N.pos p)) r1) as [[xs' r2]| |] eqn:E2; inversion H; subst.
-    apply read_str_exact in E1. apply IHfuel in E2. lia.
+  intros A rd al Hl Ha. induction fuel; intros count bs.
+  - destruct count; cbn [alloc_seq_fuel]; [lia | apply Ha].
+  - destruct count as [|p]; cbn [alloc_seq_fuel]; [lia|].
+    apply (Tot_after _ rd al _ Hl Ha (IHfuel (N.pred (N.pos p)))).
 Qed.
 
-Lemma Lin_strs : Lin (read_counted read_str) (alloc_counted string_header_size read_str alloc_str).
-Proof.
-  intros bs xs r H. unfold read_counted in H. unfold alloc_counted, string_header_size.
-  destruct (read_u64 bs) as [[n r1]| |] eqn:E1; try discriminate. cbn [rbind] in H.
-  unfold read_seq in H. unfold alloc_seq. apply strs_seq_lin in H. apply read_u64_len in E1. lia.
-Qed.
-
-Lemma Lin_counted0 : forall A (rd : reader A) al, Lin rd al -> Lin (read_counted rd) (alloc_counted 0 rd al).
+Lemma Lin_counted : forall A (rd : reader A) al, Lin rd al -> Lin (read_counted rd) (alloc_counted rd al).
 Proof.
   intros A rd al Hl bs xs r H. unfold read_counted in H. unfold alloc_counted.
   destruct (read_u64 bs) as [[n r1]| |] eqn:E1; try discriminate. cbn [rbind] in H.
   unfold read_seq in H. unfold alloc_seq. apply (Lin_seq_fuel _ rd al Hl) in H. apply read_u64_len in E1. lia.
 Qed.
+
+Lemma Tot_counted : forall A (rd : reader A) al, Lin rd al -> Tot al -> Tot (alloc_counted rd al).
+Proof.
+  intros A rd al Hl Ha bs. unfold alloc_counted.
+  destruct (read_u64 bs) as [[n r]| |] eqn:E; try lia.
+  apply read_u64_len in E. unfold alloc_seq. pose proof (Tot_seq_fuel _ rd al Hl Ha (List.length r) n r). lia.
+Qed.
+
+Definition Lin_strs := Lin_counted _ read_str alloc_str_elem Lin_str_elem.
+Definition Tot_strs := Tot_counted _ read_str alloc_str_elem Lin_str_elem Tot_str_elem.
 
 Lemma Lin_field : forall k, Lin (read_field k) (alloc_field k).
 Proof.
@@ -972,10 +940,17 @@ Proof.
   - unfold read_int in H. destruct (read_u64 bs) as [[n r1]| |] eqn:E; inversion H; subst. apply read_u64_len in E. lia.
   - unfold read_bool in H. destruct bs; inversion H; subst. unfold L. cbn [List.length]. lia.
   - destruct (read_counted read_str bs) as [[l r1]| |] eqn:E; inversion H; subst. apply Lin_strs in E. exact E.
-  - unfold read_bytes in H. unfold alloc_str.
+  - unfold read_bytes in H.
     destruct (read_u64 bs) as [[n r1]| |] eqn:E1; try discriminate. cbn [rbind] in H.
     destruct (read_raw n r1) as [[h r2]| |] eqn:E2; inversion H; subst.
-    apply read_u64_len in E1. apply read_raw_len in E2. lia.
+    assert (Hs : read_str bs = Ok (string_of_list_ascii h, r)).
+    { unfold read_str. rewrite E1. cbn [rbind]. rewrite E2. reflexivity. }
+    apply Lin_str in Hs. exact Hs.
+Qed.
+
+Lemma Tot_field : forall k, Tot (alloc_field k).
+Proof.
+  intros k bs. destruct k; cbn [alloc_field]; try apply Tot_str; try apply Tot_strs; lia.
 Qed.
 
 Lemma Lin_fields : forall ks, Lin (read_fields ks) (alloc_fields ks).
@@ -985,6 +960,13 @@ Proof.
   - destruct (read_field a bs) as [[v r1]| |] eqn:E1; try discriminate. cbn [rbind after] in *.
     destruct (read_fields ks r1) as [[vs' r2]| |] eqn:E2; inversion H; subst.
     apply Lin_field in E1. apply IHks in E2. lia.
+Qed.
+
+Lemma Tot_fields : forall ks, Tot (alloc_fields ks).
+Proof.
+  induction ks; cbn [alloc_fields].
+  - intros bs. lia.
+  - apply (Tot_after _ (read_field a) (alloc_field a) _ (Lin_field a) (Tot_field a) IHks).
 Qed.
 
 Lemma Lin_entry : Lin read_entry alloc_entry.
@@ -998,6 +980,14 @@ Proof.
   apply Lin_str in E1. apply read_u64_len in E2. apply Lin_fields in E3. lia.
 Qed.
 
+Lemma Tot_entry : Tot alloc_entry.
+Proof.
+  unfold alloc_entry. apply (Tot_after _ read_str alloc_str _ Lin_str Tot_str).
+  intros r1. destruct (read_u64 r1) as [[t r2]| |] eqn:E; try lia.
+  apply read_u64_len in E. destruct (meta_desc t) as [d|]; [|lia].
+  pose proof (Tot_fields (map snd d) r2). lia.
+Qed.
+
 Lemma Lin_pair : Lin read_pair alloc_pair.
 Proof.
   intros bs e r H. unfold read_pair in H. unfold alloc_pair.
@@ -1005,6 +995,9 @@ Proof.
   destruct (read_str r1) as [[v r2]| |] eqn:E2; inversion H; subst.
   apply Lin_str in E1. apply Lin_str in E2. lia.
 Qed.
+
+Lemma Tot_pair : Tot alloc_pair.
+Proof. unfold alloc_pair. apply (Tot_after _ read_str alloc_str _ Lin_str Tot_str Tot_str). Qed.
 
 Lemma Lin_keyed : Lin read_keyed alloc_keyed.
 Proof.
@@ -1014,37 +1007,63 @@ Proof.
   apply Lin_str in E1. apply Lin_strs in E2. lia.
 Qed.
 
-Theorem decode_alloc_linear : forall bs c r, decode_rest bs = Ok (c, r) ->
-  alloc_decode bs + 3 * L r <= 3 * L bs.
+Lemma Tot_keyed : Tot alloc_keyed.
+Proof. unfold alloc_keyed. apply (Tot_after _ read_str alloc_str _ Lin_str Tot_str Tot_strs). Qed.
+
+Definition Lin_entries := Lin_counted _ read_entry alloc_entry Lin_entry.
+Definition Tot_entries := Tot_counted _ read_entry alloc_entry Lin_entry Tot_entry.
+Definition Lin_pairs := Lin_counted _ read_pair alloc_pair Lin_pair.
+Definition Tot_pairs := Tot_counted _ read_pair alloc_pair Lin_pair Tot_pair.
+Definition Lin_keyeds := Lin_counted _ read_keyed alloc_keyed Lin_keyed.
+Definition Tot_keyeds := Tot_counted _ read_keyed alloc_keyed Lin_keyed Tot_keyed.
+
+(* the whole decoder, on every stream: decodable, truncated, hostile *)
+Theorem alloc_decode_linear : Tot alloc_decode.
 Proof.
-  intros bs c r H. unfold decode_rest in H. unfold alloc_decode.
-  destruct (read_str bs) as [[v r0]| |] eqn:E0; try discriminate. cbn [rbind afterv] in *.
-  destruct (negb (String.eqb v codec_version)); try discriminate.
-  destruct (read_str r0) as [[x1 r1]| |] eqn:E1; try discriminate. cbn [rbind after] in *.
-  destruct (read_str r1) as [[x2 r2]| |] eqn:E2; try discriminate. cbn [rbind after] in *.
-  destruct (read_counted read_entry r2) as [[x3 r3]| |] eqn:E3; try discriminate. cbn [rbind after] in *.
-  destruct (read_str r3) as [[x4 r4]| |] eqn:E4; try discriminate. cbn [rbind after] in *.
-  destruct (read_str r4) as [[x5 r5]| |] eqn:E5; try discriminate. cbn [rbind after] in *.
-  destruct (read_counted read_pair r5) as [[x6 r6]| |] eqn:E6; try discriminate. cbn [rbind after] in *.
-  destruct (read_counted read_pair r6) as [[x7 r7]| |] eqn:E7; try discriminate. cbn [rbind after] in *.
-  destruct (read_counted read_pair r7) as [[x8 r8]| |] eqn:E8; try discriminate. cbn [rbind after] in *.
-  destruct (read_counted read_keyed r8) as [[x9 r9]| |] eqn:E9; try discriminate. cbn [rbind after] in *.
-  destruct (read_counted read_keyed r9) as [[x10 r10]| |] eqn:E10; inversion H; subst.
-  apply Lin_str in E0. apply Lin_str in E1. apply Lin_str in E2.
-  apply (Lin_counted0 _ _ _ Lin_entry) in E3.
-  apply Lin_str in E4. apply Lin_str in E5.
-  apply (Lin_counted0 _ _ _ Lin_pair) in E6. apply (Lin_counted0 _ _ _ Lin_pair) in E7. apply (Lin_counted0 _ _ _ Lin_pair) in E8.
-  apply (Lin_counted0 _ _ _ Lin_keyed) in E9. apply (Lin_counted0 _ _ _ Lin_keyed) in E10.
-  lia.
+  unfold alloc_decode. intros bs.
+  destruct (read_str bs) as [[v r0]| |] eqn:E0; cbn [afterv]; try (pose proof (Tot_str bs); lia).
+  apply Lin_str in E0.
+  destruct (negb (String.eqb v codec_version)); [lia|].
+  assert (T : Tot (fun r0 =>
+    alloc_str r0 + after (read_str r0) (fun r1 =>
+    alloc_str r1 + after (read_str r1) (fun r2 =>
+    alloc_counted read_entry alloc_entry r2 + after (read_counted read_entry r2) (fun r3 =>
+    alloc_str r3 + after (read_str r3) (fun r4 =>
+    alloc_str r4 + after (read_str r4) (fun r5 =>
+    alloc_counted read_pair alloc_pair r5 + after (read_counted read_pair r5) (fun r6 =>
+    alloc_counted read_pair alloc_pair r6 + after (read_counted read_pair r6) (fun r7 =>
+    alloc_counted read_pair alloc_pair r7 + after (read_counted read_pair r7) (fun r8 =>
+    alloc_counted read_keyed alloc_keyed r8 + after (read_counted read_keyed r8) (fun r9 =>
+    alloc_counted read_keyed alloc_keyed r9))))))))))).
+  { apply (Tot_after _ _ _ _ Lin_str Tot_str).
+    apply (Tot_after _ _ _ _ Lin_str Tot_str).
+    apply (Tot_after _ _ _ _ Lin_entries Tot_entries).
+    apply (Tot_after _ _ _ _ Lin_str Tot_str).
+    apply (Tot_after _ _ _ _ Lin_str Tot_str).
+    apply (Tot_after _ _ _ _ Lin_pairs Tot_pairs).
+    apply (Tot_after _ _ _ _ Lin_pairs Tot_pairs).
+    apply (Tot_after _ _ _ _ Lin_pairs Tot_pairs).
+    apply (Tot_after _ _ _ _ Lin_keyeds Tot_keyeds).
+    exact Tot_keyeds. }
+  pose proof (T r0). cbv beta in H. lia.
 Qed.
 
-Definition C20_binary_partial_statement : Prop :=
-  forall bs c, decode bs = Ok c -> alloc_decode bs <= 3 * N.of_nat (List.length bs).
-Theorem C20_binary_partial_proved : C20_binary_partial_statement.
-Proof.
-  intros bs c H. unfold decode in H. destruct (decode_rest bs) as [[c' r]| |] eqn:E; inversion H; subst.
-  apply decode_alloc_linear in E. unfold L in E. lia.
-Qed.
+(* the statement C20 makes about the binary loader, for the modelled allocation: requested
+   bytes bounded by a linear function of the input length, K = 3 and K' = 8 *)
+Definition C20_binary_statement : Prop :=
+  forall bs, alloc_decode bs <= 3 * N.of_nat (List.length bs) + 8.
+Theorem C20_binary_proved : C20_binary_statement.
+Proof. exact alloc_decode_linear. Qed.
+
+(* the former witnesses of the over-allocation (engine before commit 2f18ef4): version string, then a
+   length prefix with nothing after it.  The repaired reader asks for 19 bytes, whatever the prefix. *)
+Definition hostile_stream (n : N) : list byte := enc_str codec_version ++ enc_u64 n.
+
+Example hostile_streams_are_cheap :
+  map (fun n => (alloc_decode (hostile_stream n), decode (hostile_stream n)))
+      [1099511627776; 8589934592; 9223372036854775807; 9223372036854775808; 18446744073709551615] =
+  [(19, Err); (19, Err); (19, Err); (19, Err); (19, Err)].
+Proof. vm_compute. reflexivity. Qed.
 
 (* ------------------------------------------------------------------------- *)
 (* 15. what a failed store leaves behind is never a loadable stream           *)
